@@ -55,6 +55,41 @@ def replay(chk: Check, cases, tier):
                         not M.same_array(np.asarray(ob.bounds, dtype="float64"), np.asarray(osml.bounds, dtype="float64").reshape(-1, 4)[bpos]):
                     fail(chk, kind, f"tiled to {len(big)} elements", subtype, aff, desc, "oriented() of the large array (area, missing mask, bounds) vs the tiled small one",
                          "differs", "equal", "tiled")
+            if aff is geom.IDENT and subtype == "int64" and n >= 2:
+                # int64 coordinates beyond 2^53 (not representable as float64): oriented() may only reverse rings, never touch a coordinate.
+                # Built from Python integers; the expectation is the model's oriented element shifted by the same integer.
+                B = 2 ** 53 + 1
+                cls_ = type(arr)
+
+                def shift(py):
+                    if py is None:
+                        return None
+                    if isinstance(py, list) and py and not isinstance(py[0], list):
+                        return [int(v) + B for v in py]
+                    return [shift(q) for q in py]
+                sel = [i for i in range(n) if exps[i] is not None and not geom.has_special(els[i])][:12]
+                if sel:
+                    src = [shift(geom._to_int(geom.to_py(kind, els[i]))) for i in sel] + [None]
+                    big = cls_(src, dtype="int64")
+                    ob = big.oriented()
+                    chk.count(len(sel))
+                    # (which way round a ring ends up is not judged here: at this magnitude the area's sign is beyond float64 exactness; what is
+                    # judged is "each ring keeping exactly its vertices in the same cyclic order or its reverse", counts and missing elements)
+                    def rings_of(py):
+                        if py is None:
+                            return None
+                        if not py or not isinstance(py[0], list):
+                            return [[(py[k], py[k + 1]) for k in range(0, len(py), 2)]]
+                        return [r for q in py for r in rings_of(q)]
+                    got_l, src_l = ob.data.to_pylist(), cls_(src, dtype="int64").data.to_pylist()
+                    okb = len(got_l) == len(src_l) and big.data.to_pylist() == src_l
+                    for g_, s_ in zip(got_l, src_l):
+                        rg, rs = rings_of(g_), rings_of(s_)
+                        if (rg is None) != (rs is None) or (rg is not None and (len(rg) != len(rs) or any(a != b and a != b[::-1] for a, b in zip(rg, rs)))):
+                            okb = False
+                    if not okb:
+                        fail(chk, kind, "int64 coordinates shifted by 2^53 + 1", subtype, aff, desc, "oriented() on int64 coordinates beyond 2^53 changed vertices / counts / the input",
+                             got_l[:2], src_l[:2], "bigint")
             ders = list(M.derivations(arr, n, rng))
             if n >= 2:
                 # histories in which a piece of the array has ALREADY been oriented before it is combined with raw data
